@@ -775,3 +775,29 @@ B('g14n_relative_seek', ['C14'], 'R14.n',
   (ST, _PEEK_TAIL, "    cur_pos = file_obj.tell()\n    peek_data = file_obj.read(size)\n    file_obj.seek(cur_pos, 1)\n    return peek_data\n"))
 B('g14n_caller_reads_header', ['C14'], 'R14.n',
   (ST, "    resp.response = file_wrapper(file_obj)\n", "    signature = file_obj.read(4)\n    resp.response = file_wrapper(file_obj)\n"))
+
+# ------------------------------------------------------------------ R14.b: the error classes are the package's own
+B('g14b_werkzeug_notfound', ['C14'], 'R14.b',
+  (ST, "from .errors import Forbidden, NotFound\n", "from .errors import Forbidden\nfrom werkzeug.exceptions import NotFound\n"))
+B('g14b_werkzeug_forbidden_alias', ['C14'], 'R14.b',
+  (ST, "from .errors import Forbidden, NotFound\n", "from .errors import NotFound\nfrom werkzeug import exceptions as _wz\n\nForbidden = _wz.Forbidden\n"))
+
+# ------------------------------------------------------------------ R14.g: one response object shared by all requests
+B('g14g_shared_response_template', ['C14'], 'R14.g',
+  (ST, _BFR_DEF, "_BLANK = Response('')\n\n\n" + _BFR_DEF),
+  (ST, "    resp = response_type('')\n", "    resp = _BLANK\n"))
+B('g14g_response_default_argument', ['C14'], 'R14.g',
+  (ST, "                        response_type=Response):\n    resp = response_type('')\n",
+       "                        response_type=Response,\n                        resp=Response('')):\n"))
+B('g14m_app_fixes_mimetype', ['C14'], 'R14.m',
+  (ST, "                   mimetype=None,\n                   default_text_mime=self.default_text_mime,", "                   mimetype=self.default_text_mime,\n                   default_text_mime=self.default_text_mime,"))
+T('g14m_app_omits_mimetype', ['C14'],
+  (ST, "                   mimetype=None,\n                   default_text_mime=self.default_text_mime,", "                   default_text_mime=self.default_text_mime,"))
+
+# ------------------------------------------------------------------ R14.a / R14.i: first regular file through filter()
+T('g14i_next_filter_isfile', ['C14'],
+  (ST, _LOOP, "    candidates = (pjoin(sr, rel_path) for sr in search_paths)\n    return next(filter(isfile, candidates), None)\n"))
+B('g14i_next_filter_exists', ['C14'], 'R14.a',
+  (ST, _LOOP, "    candidates = (pjoin(sr, rel_path) for sr in search_paths)\n    return next(filter(os.path.exists, candidates), None)\n"))
+B('g14i_next_filter_reversed', ['C14'], 'R14.i',
+  (ST, _LOOP, "    candidates = [pjoin(sr, rel_path) for sr in search_paths]\n    return next(filter(isfile, reversed(candidates)), None)\n"))
